@@ -318,6 +318,17 @@ func c10Run(cs c10Case) []c10Issue {
 func c10Cases(tier string) []c10Case {
 	var out []c10Case
 	shapes := [][3]int{{0, 0, 0}, {1, 0, 0}, {0, 1, 0}, {0, 0, 1}, {1, 1, 0}, {1, 0, 1}, {0, 1, 1}, {1, 1, 1}, {2, 0, 0}, {0, 0, 2}}
+	if tier == "thorough" {
+		shapes = nil
+		for a := 0; a <= 2; a++ {
+			for b := 0; b <= 2; b++ {
+				for c := 0; c <= 2; c++ {
+					shapes = append(shapes, [3]int{a, b, c})
+				}
+			}
+		}
+		shapes = append(shapes, [3]int{3, 1, 1})
+	}
 	for _, sh := range shapes {
 		for _, noRoute := range []bool{false, true} {
 			for _, pos := range c10Positions(sh, noRoute) {
@@ -469,6 +480,6 @@ func checkC10(run *h.Run) {
 	run.Cov["evaluations"] = total
 	run.Cov["distinct_nontrivial"] = total
 	run.Cov["exhaustive"] = total == len(cases)
-	run.Cov["rule"] = "Crash-point enumeration (E1) on the instrumented real package: chain shapes (n_c,n_s,n_r) in {0,1}^3 + (2,0,0) + (0,0,2) x every panic position (each filter before passing on / after the downstream returned, handler before output / after partial output / after WriteEntity, the route's condition function; also on a request that fails routing) x panic value {string, error, struct} x recovery {off, default, custom 503 handler} x encoding {off, gzip, deflate} x provider {sync.Pool, bounded(1)} under a ledger x entry point x router (quick: product thinned on value x router x provider, every single dimension complete; thorough: full product). E2: every sequence of 2 (thorough: up to 3) requests over {normal, panic at each position} followed by the probe set. Each case runs under the controlled scheduler as a single thread so that a lock left held is a deadlock verdict; afterwards a probe set (normal request, Add + request, Remove + request, normal again) must equal a fresh container's answers. Every case is non-trivial."
+	run.Cov["rule"] = "Crash-point enumeration (E1) on the instrumented real package: chain shapes (n_c,n_s,n_r) in {0,1}^3 + (2,0,0) + (0,0,2) (thorough: all of {0,1,2}^3 and (3,1,1)) x every panic position (each filter before passing on / after the downstream returned, handler before output / after partial output / after WriteEntity, the route's condition function; also on a request that fails routing) x panic value {string, error, struct} x recovery {off, default, custom 503 handler} x encoding {off, gzip, deflate} x provider {sync.Pool, bounded(1)} under a ledger x entry point x router (quick: product thinned on value x router x provider, every single dimension complete; thorough: full product). E2: every sequence of 2 (thorough: up to 3) requests over {normal, panic at each position} followed by the probe set. Each case runs under the controlled scheduler as a single thread so that a lock left held is a deadlock verdict; afterwards a probe set (normal request, Add + request, Remove + request, normal again) must equal a fresh container's answers. Every case is non-trivial."
 	run.Assume = []string{"panics of plain http.Handlers registered through Handle are outside the statement", "default recover handler: only the first line of its output (the panic value) is compared, not the stack trace"}
 }
